@@ -111,13 +111,14 @@ def _init_worker(modname):
 
 def _run_guarded(mod, case):
     try:
-        signal.setitimer(signal.ITIMER_REAL, CASE_TIMEOUT)
+        signal.setitimer(signal.ITIMER_REAL, getattr(mod, "CASE_TIMEOUT", CASE_TIMEOUT))
     except Exception:
         pass
     try:
         r = mod.run(case)
     except CaseTimeout:
-        r = dict(viol=[V("timeout", seconds=CASE_TIMEOUT)], nontrivial=None,
+        r = dict(viol=[V("timeout", seconds=getattr(mod, "CASE_TIMEOUT", CASE_TIMEOUT))],
+                 nontrivial=None,
                  outcome="timeout", stats={})
     except Exception as e:  # harness or unexpected library exception: surfaced, never hidden
         r = dict(viol=[V("harness_exception", exc=repr(e),
